@@ -293,26 +293,15 @@ Proof.
   intros X B sc a v HS HB Hr Hs. unfold store_value. rewrite get_slot_patch.
   destruct (get_slot a sc) as [s|er] eqn:Eg; [|reflexivity]. cbn [bind]. apply get_slot_ok in Eg.
   destruct s as [z0|lold|]; destruct v as [z|l tmp]; try reflexivity.
-  destruct (negb tmp && Nat.eqb l lold) eqn:Eself; [reflexivity|].
   assert (Hp : ptr_at sc a lold) by exact Eg.
-  destruct (safe_loc _ _ _ _ _ HS HB Hs Hp) as [N1 N2].
-  assert (Hlo : live sc lold) by (eapply (sep_live _ _ HS); eauto).
-  rewrite free_patch by auto. destruct (free lold sc) as [st1|er] eqn:Ef; [|reflexivity]. cbn [lift0 bind].
-  pose proof (free_ok _ _ _ Ef Hlo) as (F1 & F2 & F3 & F4 & F5).
-  assert (Hne : l <> lold).
-  { destruct tmp; cbn in Eself, Hr.
-    - intros ->. eapply (sep_xvar _ _ HS); eauto. apply in_or_app; auto.
-    - apply Nat.eqb_neq; auto. }
-  assert (Hll : live st1 l).
-  { destruct (rv_read_live _ _ _ _ HS Hr) as [c Hc]. exists c. rewrite F2, nth_error_upd_neq; auto. }
-  assert (B1 : Binv B st1).
-  { eapply Binv_keeps; eauto. intros b Hin. destruct HB as [Hnd H]. destruct (H b Hin) as (P1 & P2 & _).
-    assert (Q1 : b_lc b <> lold) by (intros E; apply N1; rewrite <- E; apply in_map; auto).
-    assert (Q2 : b_ll b <> lold) by (intros E; apply N2; rewrite <- E; apply in_map; auto).
-    split; (split; [congruence|]); intros l0 Hp0; rewrite F2; apply nth_error_upd_neq.
-    - unfold ptr_at in *. congruence.
-    - unfold ptr_at in *. congruence. }
-  rewrite claim_or_copy_patch by auto. destruct (claim_or_copy l tmp st1) as [[l' st2]|er]; reflexivity.
+  rewrite claim_or_copy_patch by (auto; eapply rv_read_live; eauto).
+  destruct (claim_or_copy l tmp sc) as [[l' st1]|er] eqn:Ec; [|reflexivity]. cbn [lift1 bind].
+  destruct (claim_or_copy_spec _ _ _ _ _ _ HS Hr Ec) as (C1 & C2 & C3 & C4 & C5 & C6).
+  pose proof (Binv_heap_same _ _ _ _ HS HB C2 C4) as B1.
+  assert (Hp1 : ptr_at st1 a lold) by (unfold ptr_at in *; congruence).
+  destruct (safe_loc _ _ _ _ _ C1 B1 Hs Hp1) as [N1 N2].
+  assert (Hlo : live st1 lold) by (eapply (sep_live _ _ C1); eauto).
+  rewrite free_patch by auto. destruct (free lold st1) as [st2|er]; reflexivity.
 Qed.
 
 Lemma do_assign_patch : forall X B e x ex sc, Sep X sc -> Binv B sc ->
